@@ -97,7 +97,7 @@ func (f *STFS) Create(name string) (afero.File, error) {
 
 	name = cleanName(name)
 
-	if _, err := inventory.Stat(
+	if parent, err := inventory.Stat(
 		f.metadata,
 
 		filepath.Dir(name),
@@ -110,6 +110,8 @@ func (f *STFS) Create(name string) (afero.File, error) {
 		}
 
 		return nil, err
+	} else if parent.Typeflag != tar.TypeDir {
+		return nil, config.ErrIsFile
 	}
 
 	return f.OpenFile(name, os.O_RDWR|os.O_CREATE|os.O_TRUNC, 0666)
@@ -291,7 +293,7 @@ func (f *STFS) Mkdir(name string, perm os.FileMode) error {
 	f.ioLock.Lock()
 	defer f.ioLock.Unlock()
 
-	if _, err := inventory.Stat(
+	if parent, err := inventory.Stat(
 		f.metadata,
 
 		filepath.Dir(name),
@@ -304,6 +306,8 @@ func (f *STFS) Mkdir(name string, perm os.FileMode) error {
 		}
 
 		return err
+	} else if parent.Typeflag != tar.TypeDir {
+		return config.ErrIsFile
 	}
 
 	if hdr, err := inventory.Stat(
@@ -469,7 +473,7 @@ func (f *STFS) OpenFile(name string, flag int, perm os.FileMode) (afero.File, er
 
 			createFile := func() error {
 				if !f.readOnly && flag&os.O_CREATE != 0 && flag&os.O_EXCL == 0 {
-					if _, err := inventory.Stat(
+					if parent, err := inventory.Stat(
 						f.metadata,
 
 						filepath.Dir(name),
@@ -482,6 +486,8 @@ func (f *STFS) OpenFile(name string, flag int, perm os.FileMode) (afero.File, er
 						}
 
 						return err
+					} else if parent.Typeflag != tar.TypeDir {
+						return config.ErrIsFile
 					}
 
 					if target, err := inventory.Stat(
@@ -765,7 +771,7 @@ func (f *STFS) Rename(oldname, newname string) error {
 		return os.ErrInvalid
 	}
 
-	if _, err := inventory.Stat(
+	if parent, err := inventory.Stat(
 		f.metadata,
 
 		filepath.Dir(newname),
@@ -778,6 +784,8 @@ func (f *STFS) Rename(oldname, newname string) error {
 		}
 
 		return err
+	} else if parent.Typeflag != tar.TypeDir {
+		return config.ErrIsFile
 	}
 
 	target, err := inventory.Stat(
